@@ -1,0 +1,67 @@
+//go:build verif
+
+// Machine-checked contracts (comment-only; compiled only under the build tag "verif").
+// Read by /verif/govc; see /verif/DESIGN.md section 4 for the contract language.
+package batchrelease
+
+//@ track github.com/openkruise/rollouts/pkg/controller/batchrelease/control.(Interface).EnsureBatchPodsReadyAndLabeled as Ensure
+//@ track github.com/openkruise/rollouts/pkg/controller/batchrelease/control.(Interface).Finalize as Finalize
+//@ track github.com/openkruise/rollouts/pkg/controller/batchrelease/control.(Interface).UpgradeBatch as Upgrade
+//@ track github.com/openkruise/rollouts/pkg/controller/batchrelease/control.(Interface).Initialize as Initialize
+//@ track (*Executor).moveToNextBatch as moveNext
+//@ track isPartitioned as isPartitioned
+
+//@ define part(r) = r.Spec.ReleasePlan.BatchPartition
+//@ define cur(s) = s.CanaryStatus.CurrentBatch
+//@ define bstate(s) = s.CanaryStatus.CurrentBatchState
+
+//@ func (*Executor).moveToNextBatch
+//@ props C01 C11
+//@ requires release != nil && status != nil
+//@ ensures step: cur(status) == old(cur(status)) || cur(status) == old(cur(status)) + 1
+//@ ensures bounded: part(release) != nil ==> cur(status) <= imax(old(cur(status)), *part(release))
+//@ ensures unbounded: part(release) == nil ==> cur(status) == old(cur(status)) + 1
+//@ ensures state: bstate(status) == v1beta1.UpgradingBatchState
+
+//@ func isPartitioned
+//@ props C01 C11
+//@ requires release != nil
+//@ ensures result == (part(release) != nil && *part(release) <= cur(release.Status))
+//@ pure
+
+//@ func (*Executor).progressBatches
+//@ props C01 C11
+//@ requires release != nil && newStatus != nil && workloadController != nil
+//@ ensures ready_means_checked: bstate(newStatus) == v1beta1.ReadyBatchState ==> #Ensure == 1 && #Ensure.ret0 == nil
+//@ ensures ready_time_set: bstate(newStatus) == v1beta1.ReadyBatchState && old(bstate(newStatus)) != v1beta1.ReadyBatchState ==> newStatus.CanaryStatus.BatchReadyTime != nil
+//@ ensures falls_back: #Ensure > 0 && #Ensure.ret0 != nil ==> bstate(newStatus) == v1beta1.UpgradingBatchState && (old(bstate(newStatus)) == v1beta1.ReadyBatchState ==> newStatus.CanaryStatus.BatchReadyTime == nil)
+//@ ensures batch_moves_only_below_partition: cur(newStatus) != old(cur(newStatus)) ==> #moveNext == 1 && #isPartitioned == 1 && !#isPartitioned.ret0 && old(bstate(newStatus)) == v1beta1.ReadyBatchState && #Ensure == 1 && #Ensure.ret0 == nil
+//@ ensures batch_step: cur(newStatus) == old(cur(newStatus)) || cur(newStatus) == old(cur(newStatus)) + 1
+//@ ensures upgrade_only_when_upgrading: #Upgrade > 0 ==> old(bstate(newStatus)) != v1beta1.VerifyingBatchState && old(bstate(newStatus)) != v1beta1.ReadyBatchState
+//@ ensures verifying_after_upgrade: bstate(newStatus) == v1beta1.VerifyingBatchState && old(bstate(newStatus)) != v1beta1.VerifyingBatchState ==> #Upgrade == 1 && #Upgrade.ret0 == nil
+
+//@ func (*Executor).executeBatchReleasePlan
+//@ props C11 C18
+//@ requires release != nil && newStatus != nil && workloadController != nil
+//@ ensures completed_only_after_finalize: newStatus.Phase == v1beta1.RolloutPhaseCompleted ==> old(newStatus.Phase) == v1beta1.RolloutPhaseCompleted || (old(newStatus.Phase) == v1beta1.RolloutPhaseFinalizing && #Finalize == 1 && #Finalize.ret0 == nil)
+//@ ensures finalize_only_when_finalizing: #Finalize > 0 ==> old(newStatus.Phase) == v1beta1.RolloutPhaseFinalizing
+//@ ensures progressing_after_init: newStatus.Phase == v1beta1.RolloutPhaseProgressing && old(newStatus.Phase) != v1beta1.RolloutPhaseProgressing ==> #Initialize == 1 && #Initialize.ret0 == nil
+
+//@ func signalRecalculate
+//@ props C01 C11
+//@ requires release != nil && newStatus != nil
+//@ ensures le_partition: part(release) != nil && *part(release) >= 0 ==> cur(newStatus) <= *part(release)
+//@ ensures in_plan: len(release.Spec.ReleasePlan.Batches) > 0 ==> cur(newStatus) <= len(release.Spec.ReleasePlan.Batches) - 1
+//@ ensures nonneg: (part(release) != nil ==> *part(release) >= 0) && len(release.Spec.ReleasePlan.Batches) > 0 ==> cur(newStatus) >= 0
+//@ ensures falls_back: bstate(newStatus) == v1beta1.UpgradingBatchState && newStatus.CanaryStatus.BatchReadyTime == nil
+
+//@ func signalRestartBatch
+//@ props C01 C11
+//@ requires status != nil
+//@ ensures falls_back: bstate(status) == v1beta1.UpgradingBatchState && status.CanaryStatus.BatchReadyTime == nil
+//@ ensures same_batch: cur(status) == old(cur(status))
+
+//@ func signalRePrepareRollback
+//@ props C11
+//@ requires newStatus != nil
+//@ ensures falls_back: bstate(newStatus) == v1beta1.UpgradingBatchState && newStatus.CanaryStatus.BatchReadyTime == nil && newStatus.Phase == v1beta1.RolloutPhasePreparing
